@@ -149,9 +149,12 @@ def r3_bounded_channels(chk):
                 else:
                     r.bad(cfg, key, where(body, c.blk), "unbounded channel constructed: buffering is no longer bounded by a high-water mark")
                 continue
-            cap = body.provenance(c.args[0]) if c.args else ""
+            cap = body.provenance_all(c.args[0]) if c.args else ""
             if re.search(r"sndhwm|rcvhwm", cap):
-                r.ok(cfg, key, where(body, c.blk), "capacity = " + cap[-60:])
+                if re.match(r"^std::cmp::Ord::max\([\w:<>(). ,@#]*\.(sndhwm|rcvhwm)\)?, const:1\)$", cap):
+                    r.ok(cfg, key, where(body, c.blk), "capacity = max(hwm, 1)")
+                else:
+                    r.bad(cfg, key, where(body, c.blk), "the capacity of a data-path channel is derived from a high-water mark but is not exactly max(hwm, 1): `%s` - buffering is no longer bounded by the configured HWM" % cap[-100:])
             elif re.search(r"capacity|const:\d+|max_connections|ready_capacity", cap):
                 r.ok(cfg, key, where(body, c.blk), "capacity handed down / constant: " + cap[-60:])
             else:
